@@ -4,6 +4,7 @@ Binary mappings (`new_binary_mapping`): identifiers, the `forbid(i, j)` clause, 
 import Lemmas.C01Basic
 import CnfgenModel.Fam.Php
 import Batteries.Data.Nat.Lemmas
+import Lemmas.VarsBinary
 namespace Cnfgen.Fam
 open Cnfgen
 
@@ -103,49 +104,14 @@ theorem forbidLits_wf {bits i j m : Nat} (hi : 1 ≤ i) (him : i ≤ m) :
 
 /-! ### the bit length -/
 
-theorem clog2_spec (n : Nat) : n ≤ 2 ^ Vars.clog2 n := by
-  unfold Vars.clog2
-  cases h : (List.range (n + 1)).find? (fun b => decide (n ≤ 2 ^ b)) with
-  | none =>
-    have := List.find?_eq_none.1 h n (by simp)
-    simp at this
-    exact absurd (Nat.lt_two_pow_self (n := n)) (by omega)
-  | some b =>
-    have := List.find?_some h
-    simpa using this
+theorem clog2_spec (n : Nat) : n ≤ 2 ^ Vars.clog2 n := (Vars.clog2_spec n).1
 
 /-- minimality: fewer bits do not suffice -/
 theorem clog2_min (n b : Nat) (hb : b < Vars.clog2 n) : 2 ^ b < n := by
-  unfold Vars.clog2 at hb
-  cases h : (List.range (n + 1)).find? (fun b => decide (n ≤ 2 ^ b)) with
-  | none =>
-    have := List.find?_eq_none.1 h n (by simp)
-    simp at this
-    exact absurd (Nat.lt_two_pow_self (n := n)) (by omega)
-  | some c =>
-    rw [h] at hb
-    simp only [Option.getD_some] at hb
-    rw [List.find?_eq_some_iff_append] at h
-    obtain ⟨_, as, bs, hsplit, hall⟩ := h
-    -- `b < c` occurs before `c` in `range (n+1)`, so it fails the test
-    have hc : c < n + 1 := by
-      have : c ∈ List.range (n + 1) := by rw [hsplit]; simp
-      simpa using this
-    have hlen : as.length = c := by
-      have h1 := congrArg (fun l => l[as.length]?) hsplit
-      simp only [List.getElem?_append_right (Nat.le_refl _), Nat.sub_self, List.getElem?_cons_zero] at h1
-      have hlt : as.length < n + 1 := by
-        have := congrArg List.length hsplit
-        simp at this; omega
-      rw [List.getElem?_range hlt] at h1
-      simpa using h1
-    have hb' : b ∈ as := by
-      have h1 : (List.range (n + 1))[b]? = (as ++ c :: bs)[b]? := congrArg (fun l => l[b]?) hsplit
-      rw [List.getElem?_range (by omega), List.getElem?_append_left (by omega)] at h1
-      exact List.mem_of_getElem? h1.symm
-    have := hall b hb'
-    simp only [Bool.not_eq_true', decide_eq_false_iff_not] at this
-    omega
+  apply Nat.lt_of_not_le
+  intro h
+  have := (Vars.clog2_spec n).2 b h
+  omega
 
 end Cnfgen.Fam
 
